@@ -20,6 +20,8 @@ import GolibsVerif.Theorems.C03
 import GolibsVerif.Theorems.C04
 import GolibsVerif.Theorems.C05
 import GolibsVerif.Theorems.C06
+import GolibsVerif.Theorems.C07
+import GolibsVerif.Theorems.C08
 import GolibsVerif.Theorems.C12
 import GolibsVerif.Theorems.C13
 import GolibsVerif.Theorems.C14
@@ -45,11 +47,11 @@ def covered : List String := [
   "stringutil.ContainsFold", "stringutil.SplitTrimmed",
   "urlutil.URL.UnmarshalJSON",
   "netutil.IPFromReversedAddr", "netutil.IPToReversedAddr",
-  "netutil.ExtractReversedAddr", "netutil.PrefixFromReversedAddr"]
+  "netutil.ExtractReversedAddr", "netutil.PrefixFromReversedAddr",
+  "hostsfile.Record.UnmarshalText", "hostsfile.Parse"]
 
 /-- modelled and tied by the correspondence check; totality theorem not yet in this file -/
 def pending : List String := [
-  "hostsfile.Parse", "hostsfile.Record.UnmarshalText",
   "netutil.IPNetToPrefix", "netutil.IPNetToPrefixNoMapped"]
 
 def entryOK (e : Entry) : Bool :=
@@ -130,6 +132,15 @@ theorem arpa_prefix_never_panics (toASCII : Bytes → Option Bytes)
     (hDot : ∀ s t, toASCII s = some t → s.head? = some 46 → t.head? = some 46) (s : Bytes) :
     (∃ r, prefixFromReversedAddr toASCII s = .ok r) ∧ (∃ r, extractReversedAddr toASCII s = .ok r) :=
   ⟨C05.prefixFromReversedAddr_total toASCII s, C05.extractReversedAddr_total toASCII hDot s⟩
+
+/-- `Record.UnmarshalText` never panics (any line, any `idna.ToASCII`), and `Parse` never panics
+on any byte stream (the scanner is the SCAN-1 contract). -/
+theorem hostsfile_never_panics (toASCII : Bytes → Option Bytes) (r : C07.Record) (line : Bytes)
+    (isHandleSet : Bool) (srcName stream : Bytes) :
+    (∃ res, C07.unmarshalText toASCII r line = .ok res) ∧
+    (∃ res, C08.parse toASCII isHandleSet srcName false stream = .ok res) :=
+  ⟨C07.unmarshal_total toASCII r line,
+   let ⟨_, _, h⟩ := C08.parse_exact toASCII isHandleSet srcName stream; ⟨_, h⟩⟩
 
 theorem stringutil_never_panics (fold : Nat → Nat) (s sub : Bytes) :
     (∃ b, C13.containsFold fold s sub = .ok b) ∧
